@@ -89,6 +89,11 @@ def cases(tier: str, seed: int) -> list[dict]:
             add(kind='pair', size=size, cuts=[{'at': 'file', 'K': k, 'mode': 'rst'}], truncate=True)
         else:
             add(kind='pair', size=size, cuts=[], pause=True)
+    # the uploader's first file connection arrives late: its direct attempt hangs until the connect timeout and the
+    # server relays the connect-to-peer request after a delay, around the downloader's 60 s wait for the connection
+    n_late = 24 if tier == 'quick' else 400
+    for i in range(n_late):
+        add(kind='pair', size=rng.choice([129, 8193, 20000]), cuts=[], late_file_conn=rng.choice([40.0, 49.0, 49.9, 50.1, 51.0, 55.0]))
     n_dis = 70 if tier == 'quick' else 1500
     for i in range(n_dis):
         add(kind='dishonest', i=i)
@@ -127,6 +132,9 @@ def _run_pair(params: dict) -> dict:
     randomize = params.get('randomize', True)
     path = params.get('path') or rng.choice(['direct', 'direct', 'indirect'])
     mode = rng.choice(['race', 'fallback'])
+    late = params.get('late_file_conn')
+    if late:
+        path, mode = 'direct', 'fallback'
     seg = rng.choice(['random', 'random', 'bytes1' if size <= 300 else 'fixed:1000', 'whole'])
     limits = rng.choice([(0, 0), (0, 0), (64, 0), (0, 64), (32, 32)])
     if params.get('pause'):
@@ -162,8 +170,28 @@ def _run_pair(params: dict) -> dict:
             plan = ConnPlan(latency=rng.uniform(0.001, 0.03), seg=seg, seg_lat=ctl_lat)
             if path == 'indirect' and node == 'up' and port in (dn.port, dn.obf_port):
                 plan.connect = rng.choice(['refuse', 'refuse', 'hang'])
+            if late and node == 'up' and port in (dn.port, dn.obf_port) and state.get('late_phase') == 'armed':
+                plan.connect = 'hang'          # the direct attempt for the file connection runs into its timeout
+                state['late_phase'] = 'direct-hanging'
+                trace.append((round(w.now, 4), 'late: direct attempt of the uploader hangs'))
             return plan
         w.net.planner = planner
+        if late:
+            from aioslsk.protocol.messages import ConnectToPeer, PeerTransferReply
+
+            def relay_late(session, msg):
+                # the first connect-to-peer request for a file connection is relayed late, once
+                if session.username == 'up' and msg.typ == 'F' and state.get('late_phase') == 'direct-hanging':
+                    state['late_phase'] = 'done'
+                    trace.append((round(w.now, 4), 'late: server holds the relay for', late))
+
+                    async def later():
+                        await asyncio.sleep(late)
+                        w.server._handle(session, msg)
+                    w.spawn('srv', later(), name='vf-late-relay')
+                    return True
+                return False
+            w.server.overrides[ConnectToPeer.Request] = relay_late
 
         def local_size(fc: FileConn):
             t = state['dn_t']
@@ -216,6 +244,8 @@ def _run_pair(params: dict) -> dict:
 
         def on_edge(transfer, old, new):
             trace.append((round(w.now, 4), transfer.direction.name[0], old, new))
+            if late and transfer is t and new == 'INITIALIZING' and 'late_phase' not in state:
+                state['late_phase'] = 'armed'       # the uploader's next connect to the downloader is the file connection
             if transfer is t and params.get('truncate') and old == 'DOWNLOADING' and new == 'INCOMPLETE' \
                     and not state.get('truncated'):
                 lp = transfer.local_path
